@@ -59,6 +59,8 @@ def node(n):
         return {"k": "neg", "a": a}
     if isinstance(n, (ast.Name, ast.Attribute)):
         return {"k": "name", "id": dotted(n)}
+    if isinstance(n, ast.Dict):
+        return {"k": "dict", "items": [{"key": k.value, "val": node(v)} for k, v in zip(n.keys, n.values)]}
     if isinstance(n, ast.List):
         return {"k": "list", "items": [node(x) for x in n.elts]}
     raise ValueError(f"unexpected syntax in a representation: {ast.dump(n)[:200]}")
@@ -103,6 +105,14 @@ def diff(want, got, dec, approx, path="repr"):
         return None
     if k == "neg":
         return diff(want["a"], got["a"], dec, approx, path + ">-")
+    if k == "dict":
+        if [x["key"] for x in want["items"]] != [x["key"] for x in got["items"]]:
+            return f"{path}: keys {[x['key'] for x in got['items']]}, expected {[x['key'] for x in want['items']]}"
+        for a, b in zip(want["items"], got["items"]):
+            d = diff(a["val"], b["val"], dec, approx, f"{path}{{{a['key']}}}")
+            if d:
+                return d
+        return None
     key = {"str": "s", "int": "i", "bool": "b", "name": "id"}.get(k)
     if key and want[key] != got[key]:
         return f"{path}: {got[key]!r}, expected {want[key]!r}"
@@ -231,9 +241,10 @@ def check_case(ctx, fl, c, rng, origin, approx=False, real=None, heavy=False):
                             ns2: dict = {}
                             if enc:
                                 exec(code, ns2)
-                                klass = ns2.get(fl.Op.as_identifier(fl.Op.pascal_case(real_.name)))
-                                if klass is None:
-                                    raise LookupError("no class named after the engine in the encapsulated code")
+                                names = [n.name for n in ast.parse(code).body if isinstance(n, ast.ClassDef)]
+                                if len(names) != 1:
+                                    raise LookupError(f"expected one class in the encapsulated code, found {names}")
+                                klass = ns2[names[0]]
                                 eng2 = klass().engine
                             else:
                                 exec(imp, ns2)
@@ -241,7 +252,7 @@ def check_case(ctx, fl, c, rng, origin, approx=False, real=None, heavy=False):
                             if repr(eng2) != text:
                                 ctx.violation(f"PythonExporter/formatted={formatted}/encapsulated={enc}/rebuilt-differs", dict(case, code=code[:3000]), text[:400], repr(eng2)[:400])
                         except Exception as ex:
-                            shadow = enc and alias == "*" and hasattr(fl, fl.Op.as_identifier(fl.Op.pascal_case(real_.name)))
+                            shadow = enc and alias == "*" and bool(real_.name) and hasattr(fl, fl.Op.pascal_case(real_.name))   # keyed by the engine's own name
                             ctx.violation(f"PythonExporter/formatted={formatted}/encapsulated={enc}/{type(ex).__name__}" + ("/class-name-shadows-library-name" if shadow else ""),
                                           dict(case), "an engine", f"{type(ex).__name__}: {ex}")
 
